@@ -15,21 +15,26 @@
 (***************************************************************************)
 EXTENDS Integers, Sequences, FiniteSets, TLC
 CONSTANTS Threads, MaxId, SerialMod, NAlloc, StartId, StartSerial, LockEnforced,
-          RefThreads, NRef, StartCtr
+          RefThreads, NRef, StartCtr,
+          Creations,         \* creation values the environment may put in force (PidAllocator::set_creation; they recur: EPMD hands out 1, 2, 3, 1, ...)
+          MaxSet,            \* bound on the number of set_creation calls
+          CreationRewinds    \* deviation (FALSE in the code): set_creation also restarts the numbering at <<1, 0>>
 VARIABLES nextId, nextSerial, creation, lock, pc, lid, lser, left, issued,
           ctr, rpc, rwords, rleft, rissued,
+          nset,       \* set_creation calls so far
+          epoch,      \* ghost: Len(issued) at the last set_creation (identifiers after that index were made under the creation now in force)
           origin      \* ghost: the position <<id, serial>> the allocator was at when observation began;
                       \* everything before that position (in issue order) counts as already issued
 pvars == <<nextId, nextSerial, creation, lock, pc, lid, lser, left, issued>>
 rvars == <<ctr, rpc, rwords, rleft, rissued>>
-vars == <<pvars, rvars, origin>>
+vars == <<pvars, rvars, origin, nset, epoch>>
 None == 0     \* thread identities are model values or positive integers
 Init == /\ nextId = StartId /\ nextSerial = StartSerial /\ creation = 1 /\ lock = None
         /\ pc = [t \in Threads |-> "idle"] /\ lid = [t \in Threads |-> 0] /\ lser = [t \in Threads |-> 0]
         /\ left = [t \in Threads |-> NAlloc] /\ issued = <<>>
         /\ ctr = StartCtr /\ rpc = [t \in RefThreads |-> 0] /\ rwords = [t \in RefThreads |-> <<>>]
         /\ rleft = [t \in RefThreads |-> NRef] /\ rissued = <<>>
-        /\ origin = <<StartId, StartSerial>>
+        /\ origin = <<StartId, StartSerial>> /\ nset = 0 /\ epoch = 0
 Go(t, from, to) == pc[t] = from /\ pc' = [pc EXCEPT ![t] = to]
 Call(t)    == Go(t, "idle", "probe") /\ left[t] > 0 /\ left' = [left EXCEPT ![t] = @ - 1]
               /\ UNCHANGED <<nextId, nextSerial, creation, lock, lid, lser, issued, rvars>>
@@ -49,9 +54,14 @@ StoreNext(t) == Go(t, "loaded_ser", "ret") /\ lid[t] < MaxId /\ nextId' = lid[t]
 Return(t)  == Go(t, "ret", "idle") /\ issued' = Append(issued, <<lid[t], lser[t], creation>>)
               /\ lock' = (IF lock = t THEN None ELSE lock)
               /\ UNCHANGED <<nextId, nextSerial, creation, lid, lser, left, rvars>>
-\* the environment changes the creation (Node::start) only while no allocation is in progress
-SetCreation(c) == /\ \A t \in Threads : pc[t] = "idle" /\ creation' = c
-                  /\ UNCHANGED <<nextId, nextSerial, lock, pc, lid, lser, left, issued, rvars, origin>>
+\* the environment changes the creation (Node::start, a new EPMD registration) only while no allocation is in progress
+\* (the documented precondition of set_creation); the value may be one that was in force before.  The counters are
+\* not touched: numbering goes on, which is what keeps identifiers of a recurring creation apart.
+SetCreation(c) == /\ (\A t \in Threads : pc[t] = "idle") /\ nset < MaxSet /\ nset' = nset + 1
+                  /\ creation' = c /\ epoch' = Len(issued)
+                  /\ IF CreationRewinds THEN nextId' = 1 /\ nextSerial' = 0 ELSE UNCHANGED <<nextId, nextSerial>>
+                  /\ origin' = <<nextId', nextSerial'>>
+                  /\ UNCHANGED <<lock, pc, lid, lser, left, issued, rvars>>
 \* ---- references
 RefWord(t) == /\ rpc[t] < 3 /\ (rpc[t] > 0 \/ rleft[t] > 0)
               /\ rwords' = [rwords EXCEPT ![t] = Append(@, ctr)] /\ ctr' = ctr + 1
@@ -62,21 +72,23 @@ RefReturn(t) == /\ rpc[t] = 3 /\ rissued' = Append(rissued, rwords[t])
                 /\ rpc' = [rpc EXCEPT ![t] = 0] /\ rwords' = [rwords EXCEPT ![t] = <<>>]
                 /\ UNCHANGED <<ctr, rleft, pvars>>
 PStep(t) == Call(t) \/ Acquire(t) \/ LoadId(t) \/ LoadSer(t) \/ StoreOne(t) \/ FetchAdd(t) \/ StoreNext(t) \/ Return(t)
-PNext == (\E t \in Threads : PStep(t)) /\ UNCHANGED origin
-RNext == (\E t \in RefThreads : RefWord(t) \/ RefReturn(t)) /\ UNCHANGED origin
-Next == PNext \/ RNext
+PNext == (\E t \in Threads : PStep(t)) /\ UNCHANGED <<origin, nset, epoch>>
+RNext == (\E t \in RefThreads : RefWord(t) \/ RefReturn(t)) /\ UNCHANGED <<origin, nset, epoch>>
+Next == PNext \/ RNext \/ (\E c \in Creations : SetCreation(c))
 Spec == Init /\ [][Next]_vars
 \* ---- C16
 Unique == \A i, j \in 1..Len(issued) : i # j => issued[i] # issued[j]
 Bounded == Len(issued) < MaxId * SerialMod      \* the id/serial space itself repeats after that many
 UniqueWhileBounded == Bounded => Unique
-CreationInForce == \A i \in 1..Len(issued) : issued[i][3] = creation
+\* every identifier carries the creation in force when it was made (checked on the identifiers of the current epoch;
+\* those of earlier epochs were checked when they were current)
+CreationInForce == \A i \in (epoch + 1)..Len(issued) : issued[i][3] = creation
 RefUnique == \A i, j \in 1..Len(rissued) : i # j => rissued[i] # rissued[j]
 \* An identifier issued now is not one that was issued before observation began: with the allocator having
 \* reached <<origin id, origin serial>> from <<1, 0>>, every <<id, serial>> before that position is taken.
 \* (d = number of id-space wraps between the origin and the issue; exact while fewer than SerialMod wraps happened)
 NoReissue == (nextSerial - origin[2] < SerialMod) =>
-             \A i \in 1..Len(issued) : LET d == (issued[i][2] - origin[2]) % SerialMod IN d > 0 \/ issued[i][1] >= origin[1]
+             \A i \in (epoch + 1)..Len(issued) : LET d == (issued[i][2] - origin[2]) % SerialMod IN d > 0 \/ issued[i][1] >= origin[1]
 \* The sequence the allocator issues (closed form of the sequential behaviour): numbers run 1..MaxId round and round;
 \* a number below MaxId carries the count of wraps so far, MaxId itself (the wrapping allocation) already the next count.
 \* k = 0, 1, 2, ... counted from the origin.
@@ -86,7 +98,8 @@ SeqIssue(k) == LET pos == (origin[1] - 1) + k
                IN <<id, (origin[2] + cyc + (IF id = MaxId THEN 1 ELSE 0)) % SerialMod>>
 \* whenever no allocation is in flight, what has been issued is exactly the first n members of that sequence (in some order)
 AllIdle == \A t \in Threads : pc[t] = "idle"
-IssuedIsSequence == AllIdle => \A k \in 0..(Len(issued) - 1) : \E i \in 1..Len(issued) : <<issued[i][1], issued[i][2]>> = SeqIssue(k)
+\* (per epoch: the origin is re-anchored at every set_creation, so this speaks about the identifiers made since)
+IssuedIsSequence == AllIdle => \A k \in 0..(Len(issued) - epoch - 1) : \E i \in (epoch + 1)..Len(issued) : <<issued[i][1], issued[i][2]>> = SeqIssue(k)
 \* references: whenever no reference is being made, the words handed out are exactly the counter values StartCtr .. ctr - 1,
 \* each once (so references are pairwise distinct, and distinct from the unlink ids drawn from the same counter)
 RefsIdle == \A t \in RefThreads : rpc[t] = 0
